@@ -21,9 +21,37 @@ def bcfg (klt : K → K → Bool) (sb eb : Bound K) : BoundsCfg (Ver K) where
   belowStart := fun e => match sb with | .unbounded => false | .included k => klt e.1 k | .excluded k => !klt k e.1
   aboveEnd := fun e => match eb with | .unbounded => false | .included k => klt k e.1 | .excluded k => !klt e.1 k
 
-/-- `start ≤ key ≤ end` with the bounds' own strictness -/
+/-- SPECIFICATION of "the key lies in the interval": `start ≤ key ≤ end` with the bounds' own
+    strictness, written as explicit comparisons on the key and *independent of the bounds-cursor
+    model* (no reference to `bcfg`): `Included k` at the start is `¬ key < k`, `Excluded k` is
+    `k < key`; at the end `¬ k < key` resp. `key < k`.  This is the predicate on the right-hand side
+    of `scan_spec*`, `window_eq_range` and of the model driver's scan; `inRange_eq_cfg` is the bridge
+    to the tests the cursor model performs. -/
 def inRange (klt : K → K → Bool) (sb eb : Bound K) (e : Ver K) : Bool :=
-  !(bcfg klt sb eb).belowStart e && !(bcfg klt sb eb).aboveEnd e
+  (match sb with | .unbounded => true | .included k => !klt e.1 k | .excluded k => klt k e.1) &&
+  (match eb with | .unbounded => true | .included k => !klt k e.1 | .excluded k => klt e.1 k)
+
+/-- bridge: the specification `inRange` is "neither below the start nor above the end" in the
+    sense of the two key tests `BoundsCursor` performs (`bcfg`).  A wrong comparison in `bcfg`
+    would make this lemma (and with it `window_eq_range`, `scan_spec`) fail, not be mirrored
+    into the specification. -/
+theorem inRange_eq_cfg (klt : K → K → Bool) (sb eb : Bound K) (e : Ver K) :
+    inRange klt sb eb e = (!(bcfg klt sb eb).belowStart e && !(bcfg klt sb eb).aboveEnd e) := by
+  cases sb <;> cases eb <;> simp [inRange, bcfg]
+
+omit [DecidableEq K] in
+/-- the specification read as a proposition, for a strict total order on keys: with `a ≤ b := ¬ b < a` -/
+theorem inRange_iff (klt : K → K → Bool) (sb eb : Bound K) (e : Ver K) :
+    inRange klt sb eb e = true ↔
+      (match sb with | .unbounded => True | .included k => klt e.1 k = false | .excluded k => klt k e.1 = true) ∧
+      (match eb with | .unbounded => True | .included k => klt k e.1 = false | .excluded k => klt e.1 k = true) := by
+  cases sb <;> cases eb <;> simp [inRange]
+
+omit [DecidableEq K] in
+/-- the specification looks at the key only -/
+theorem inRange_key (klt : K → K → Bool) (sb eb : Bound K) {a b : Ver K} (h : a.1 = b.1) :
+    inRange klt sb eb a = inRange klt sb eb b := by
+  unfold inRange; rw [h]
 
 /-- keys never decrease along the list -/
 def KeysMono (klt : K → K → Bool) (xs : List (Ver K)) : Prop :=
@@ -280,7 +308,7 @@ theorem window_eq_range {klt : K → K → Bool} (st : StrictTotal klt) (sb eb :
   symm
   apply filter_eq_window
   intro i e he
-  unfold inRange
+  rw [inRange_eq_cfg]
   have h1 := ok.below i e he
   have h2 := ok.above i e he
   simp only [Bool.and_eq_true, Bool.not_eq_true']
@@ -300,4 +328,5 @@ theorem window_eq_range {klt : K → K → Bool} (st : StrictTotal klt) (sb eb :
 
 
 #print axioms Blue.Spec.window_eq_range
+#print axioms Blue.Spec.inRange_eq_cfg
 end Blue.Spec
